@@ -66,6 +66,9 @@ def scores(n: int, cols: Optional[int], aseed: int, name: str):
     # magnitude: mostly O(1) as after initialisation, sometimes what a long search leaves behind
     # (logits / temperature in the hundreds or thousands: saturated soft-max)
     levels = (torch.cumsum(gaps, dim=0) - 0.5) * (1, 1, 1, 4, 30)[(aseed // 2) % 5]
+    if (aseed // 10) % 4 == 3:
+        # sign: sometimes every coefficient is negative (only differences matter to a softmax)
+        levels = levels - (levels.max() + 0.25)
     if cols is None:
         perm = torch.randperm(n, generator=g)
         return levels[perm]
